@@ -26,8 +26,40 @@ fn guarded<F: FnOnce() -> Result<String, CreateModuleError> + std::panic::Unwind
     std::panic::catch_unwind(f).map_err(run::panic_message)
 }
 
+/// A fixed shader that is generated again after EVERY case of the stream (which may have panicked, been rejected, or made the
+/// formatter fail): its output must never change - nothing a call leaves behind in the process (a flag, a cache, a poisoned
+/// lock) may reach a later call.
+const REFERENCE: &str = "struct VertexInput { @location(0) position: vec3<f32>, @location(1) uv: vec2<f32> }\n\
+struct Light { position: vec3<f32>, radius: f32, colors: array<vec4<f32>, 2> }\n\
+struct Globals { view: mat4x4<f32>, lights: array<Light, 2>, time: f32 }\n\
+@group(0) @binding(0) var<uniform> globals: Globals;\n\
+@group(0) @binding(1) var tex: texture_2d<f32>;\n\
+@group(1) @binding(0) var samp: sampler;\n\
+override scale: f32 = 1.0;\n\
+@id(3) override flip: bool;\n\
+const LIMIT: u32 = 4u;\n\
+fn light_at(i: u32) -> vec3<f32> { return globals.lights[i % LIMIT].position; }\n\
+@vertex fn vs_main(v: VertexInput) -> @builtin(position) vec4<f32> { return globals.view * vec4<f32>(v.position + light_at(1u), scale); }\n\
+@fragment fn fs_main() -> @location(0) vec4<f32> { return textureSample(tex, samp, vec2<f32>(0.5)) * select(1.0, -1.0, flip); }\n";
+
+fn reference_outputs() -> Vec<(String, String)> {
+    let mut out = vec![];
+    for (label, idx, fmt) in [("defaults", 0usize, false), ("rustfmt on", 0, true), ("glam + encase", 20, false), ("validation on", 48, false), ("bytemuck + serde", 11, false)] {
+        let mut o = run::Opts::from_index(idx);
+        o.rustfmt = fmt;
+        let r = match run::run_real(REFERENCE, None, o) {
+            run::Outcome::Ok(t) => format!("ok:{t}"),
+            run::Outcome::Err(e) => format!("err:{e}"),
+            run::Outcome::Panic(m) => format!("panic:{m}"),
+        };
+        out.push((label.to_string(), r));
+    }
+    out
+}
+
 fn main() {
     run::silence_panics();
+    let baseline = reference_outputs();
     let stdin = std::io::stdin();
     for line in stdin.lock().lines() {
         let line = line.unwrap();
@@ -134,6 +166,13 @@ fn main() {
                         _ => {}
                     }
                 }
+            }
+        }
+        // nothing this case did may have changed what the reference shader generates
+        for ((label, was), (_, now)) in baseline.iter().zip(reference_outputs().iter()) {
+            if was != now {
+                let kind = if now.starts_with("panic:") { "panics" } else if now.starts_with("err:") { "is rejected" } else { "generates different text" };
+                bad.push(format!("after this case the reference shader {kind} under option set '{label}' (embedded source; state left behind by an earlier call): {}", now.chars().take(120).collect::<String>()));
             }
         }
         let verdict = if bad.is_empty() { atom("ok") } else { tagged("bad", bad.into_iter().map(string).collect()) };
